@@ -370,9 +370,9 @@ impl FixtureDatabase {
                                 }
                             }
 
-                            if !processed_files.contains(&canonical)
-                                && !self.file_cache.contains_key(&canonical)
-                            {
+                            // Queue it even when it is cached already (a notification may
+                            // have analysed it meanwhile): its own imports still need following
+                            if !processed_files.contains(&canonical) {
                                 new_modules.insert(canonical);
                             }
                         }
@@ -401,9 +401,9 @@ impl FixtureDatabase {
                                 }
                             }
 
-                            if !processed_files.contains(&canonical)
-                                && !self.file_cache.contains_key(&canonical)
-                            {
+                            // Queue it even when it is cached already (a notification may
+                            // have analysed it meanwhile): its own imports still need following
+                            if !processed_files.contains(&canonical) {
                                 new_modules.insert(canonical);
                             }
                         }
@@ -424,17 +424,7 @@ impl FixtureDatabase {
 
             // Analyze the new modules
             for module_path in &new_modules {
-                if module_path.exists() {
-                    debug!("Analyzing imported module: {:?}", module_path);
-                    match std::fs::read_to_string(module_path) {
-                        Ok(content) => {
-                            self.analyze_file_fresh(module_path.clone(), &content);
-                        }
-                        Err(err) => {
-                            debug!("Failed to read imported module {:?}: {}", module_path, err);
-                        }
-                    }
-                }
+                self.analyze_imported_module_once(module_path);
             }
 
             // Next iteration will check the newly analyzed modules for their imports
